@@ -500,6 +500,7 @@ func runC12(c *mc.Ctx) {
 			}
 			targets = append(targets, maxT/4-1, maxT/4, maxT/4+1, (c12FlagBits(maxT, 0)+7)/8)
 			seenTS := map[[2]int]bool{}
+			var fl []c12Msg // a loop of its own: the largest take seconds each and must not share one chunk
 			for _, B := range targets {
 				found := false
 				for T := min(maxT, 4*B+8); T > 4*B-64 && T > 1 && !found; T-- {
@@ -508,7 +509,7 @@ func runC12(c *mc.Ctx) {
 							if !seenTS[[2]int{T, skip}] {
 								seenTS[[2]int{T, skip}] = true
 								for _, ex := range []string{"", "00", "ff", "000000"} {
-									ds = append(ds, c12Msg{NumTx: uint32(T), Dense: T, SkipFirst: skip, ExtraFlags: ex})
+									fl = append(fl, c12Msg{NumTx: uint32(T), Dense: T, SkipFirst: skip, ExtraFlags: ex})
 								}
 							}
 							found = true
@@ -517,6 +518,13 @@ func runC12(c *mc.Ctx) {
 					}
 				}
 			}
+			// largest first, so that the long ones start together
+			sort.SliceStable(fl, func(i, j int) bool { return fl[i].Dense > fl[j].Dense })
+			c.Space("honest proofs of all but the first few leaves whose used flag bits end at chosen byte lengths (2^k, 2^k+-1, limit/4 and neighbours, the largest reachable), each honest and with 1 or 3 whole unused bytes appended", int64(len(fl)))
+			c.ParFor(int64(len(fl)), func(w *mc.W, i int64) {
+				w.State()
+				c12Eval(w, fl[i])
+			})
 		}
 		c.Space("dense proofs (every flag bit set) with d equalised sibling pairs at level 0..2, k missing hashes, b missing flag bytes; d, k around 2^8, 2^9, 2^10 (2^16)", int64(len(ds)))
 		c.ParFor(int64(len(ds)), func(w *mc.W, i int64) {
